@@ -33,6 +33,7 @@ type Clause struct {
 }
 
 type LoopContract struct {
+	steps      []*Clause // per-iteration postconditions: old() = state at the head of the same iteration
 	invariants []*Clause
 	decreases  *Clause
 	unroll     int
@@ -219,18 +220,18 @@ func installUniverse() {
 			types.NewTuple(types.NewVar(token.NoPos, nil, "", tp)), false)
 		types.Universe.Insert(types.NewFunc(token.NoPos, nil, "old", sig))
 	}
-	bytesT := types.NewSlice(types.Typ[types.Byte])
+	_ = types.NewSlice(types.Typ[types.Byte])
 	mk("forall", []types.Type{anyT}, boolT, false)
 	mk("exists", []types.Type{anyT}, boolT, false)
 	mk("fresh", []types.Type{anyT}, boolT, false)
 	mk("sameSlice", []types.Type{anyT, anyT}, boolT, false)
 	mk("unchanged", []types.Type{anyT}, boolT, false)
-	mk("be16", []types.Type{bytesT, intT}, types.Typ[types.Uint16], false)
-	mk("be32", []types.Type{bytesT, intT}, types.Typ[types.Uint32], false)
-	mk("be64", []types.Type{bytesT, intT}, types.Typ[types.Uint64], false)
-	mk("le16", []types.Type{bytesT, intT}, types.Typ[types.Uint16], false)
-	mk("le32", []types.Type{bytesT, intT}, types.Typ[types.Uint32], false)
-	mk("le64", []types.Type{bytesT, intT}, types.Typ[types.Uint64], false)
+	mk("be16", []types.Type{anyT, intT}, types.Typ[types.Uint16], false)
+	mk("be32", []types.Type{anyT, intT}, types.Typ[types.Uint32], false)
+	mk("be64", []types.Type{anyT, intT}, types.Typ[types.Uint64], false)
+	mk("le16", []types.Type{anyT, intT}, types.Typ[types.Uint16], false)
+	mk("le32", []types.Type{anyT, intT}, types.Typ[types.Uint32], false)
+	mk("le64", []types.Type{anyT, intT}, types.Typ[types.Uint64], false)
 	mk("mathint", []types.Type{anyT}, intT, false) // value as unbounded integer (no wrap in spec arithmetic)
 	mk("bytesEq", []types.Type{anyT, intT, anyT, intT, intT}, boolT, false) // bytesEq(a, aoff, b, boff, n)
 	mk("strOf", []types.Type{anyT}, types.Typ[types.String], false)       // the string whose bytes are the slice
@@ -248,7 +249,7 @@ func installUniverse() {
 // ---------------------------------------------------------------------------------------
 // Contract text.
 
-var clauseKinds = map[string]bool{"requires": true, "ensures": true, "invariant": true, "decreases": true,
+var clauseKinds = map[string]bool{"step": true, "requires": true, "ensures": true, "invariant": true, "decreases": true,
 	"modifies": true, "props": true, "trusted": true, "pure": true, "inline": true, "unroll": true, "lemma": true,
 	"assume": true, "nopanic": true, "heapframe": true}
 
@@ -1050,6 +1051,13 @@ func (p *Program) fillContract(fc *FuncContract, clauses []*rawClause, body *ast
 					return err
 				}
 				lc.invariants = append(lc.invariants, cl)
+			case "step":
+				endPos := loopBody(loops[rc.ord-1]).Rbrace
+				cl, err := p.checkClause(fc, sub, rc.where, endPos)
+				if err != nil {
+					return err
+				}
+				lc.steps = append(lc.steps, cl)
 			case "decreases":
 				cl, err := p.checkClause(fc, sub, rc.where, pos)
 				if err != nil {
